@@ -75,15 +75,15 @@ let read_table fn =
         | 'X' ->
             finish ();
             (match fields rest with
-             | [a; cpp; ei; ee; me; ew; ed] -> specials := Some (ints a, nl cpp, nl ei, nl ee, nl me, nl ew, nl ed)
+             | [a; cpp; ei; ee; me; ew; ed; se] -> specials := Some (ints a, nl cpp, nl ei, nl ee, nl me, nl ew, nl ed, nl se)
              | _ -> failwith "bad X line")
         | 'V' ->
             (match !specials, ints rest with
-             | Some ([c; d; i; pu; m0; prog], cpp, ei, ee, me, ew, ed), [v1; v2; v3; v4] ->
+             | Some ([c; d; i; pu; m0; prog], cpp, ei, ee, me, ew, ed, se), [v1; v2; v3; v4] ->
                  tbl := Some ({ t_entries = Stdlib.List.rev !entries; t_comment = n_of_int c; t_directive = n_of_int d;
                                 t_include = n_of_int i; t_program_unit = n_of_int pu; t_main0 = n_of_int m0;
                                 t_cpp = cpp; t_elseif = ei; t_else_endif = ee; t_maskedelse = me;
-                                t_else_endwhere = ew; t_enddo_continue = ed; t_main_name = N0;
+                                t_else_endwhere = ew; t_enddo_continue = ed; t_stray_enddo = se; t_main_name = N0;
                                 t_shared_restores = b v1; t_main0_guarded = b v2; t_cleanup_all = b v3;
                                 t_exits = b v4 }, n_of_int prog)
              | _ -> failwith "bad V line")
